@@ -42,7 +42,40 @@ class C03(E1Prop):
             self.script = []
             dests = ops.dest_branches(w.cfg)
             devs = [d for d in dests if d.startswith('development/')]
-            if len(devs) >= 2 and rng.random() < 0.45:
+            if w.use_queue and w.cfg.get('hotfixes') and \
+                    rng.random() < 0.5:
+                # story: a hotfix PR and a development PR queued one after
+                # the other (either order of ids); the hotfix queue build is
+                # not green, the other one is
+                hf = 'hotfix/' + w.cfg['hotfixes'][0]
+                devs = [d for d in dests if d.startswith('development/')]
+                pair = [('bugfix/TEST-931', hf),
+                        ('bugfix/TEST-932', rng.choice(devs))]
+                if rng.random() < 0.4:
+                    pair.reverse()
+                seq = []
+                for src, d in pair:
+                    # (branched from the commit before the tip, so that its
+                    # queue commit is a merge commit nobody built before)
+                    seq.append({'op': 'open_pr', 'actor': 'alice',
+                                'src': src, 'dst': d, 'kind': 'new',
+                                'from': 'old'})
+                seq += [{'op': 'eval', 'p': 0}, {'op': 'eval', 'p': 1},
+                        {'op': 'ci_green_all', 'which': ['src', 'w']},
+                        {'op': 'eval', 'p': 0}, {'op': 'eval', 'p': 1}]
+                hi = 0 if pair[0][1] == hf else 1
+                for i in (0, 1):
+                    st = rng.choice(['FAILED', 'STOPPED', 'INPROGRESS']) \
+                        if i == hi else 'SUCCESSFUL'
+                    for vi in range(4):
+                        seq.append({'op': 'ci', 'state': st,
+                                    'target': ['qw', i, vi],
+                                    'event_anyway': True})
+                seq.append({'op': 'deliver_all'})
+                for o in seq:
+                    o['dt'] = rng.choice([1, 5, 30])
+                self.script = seq
+            elif len(devs) >= 2 and rng.random() < 0.45:
                 # story: A (early destination) gets its integration
                 # branches built and green, meanwhile B lands on a later
                 # destination, then A is evaluated again
